@@ -2089,6 +2089,32 @@ zero (0) of the provided inner stack.
 stack.reveal private method, beginning the entire process anew at index zero(0) of
 the provided inner stack.
 */
+/*
+revealCandidate returns x as an [Interface] qualifier if, and only if,
+x is a [Stack] or [Condition], or a non-nil pointer to either. Values
+of other types which merely satisfy [Interface] -- for instance through
+the embedding of a (possibly nil) *[Stack] -- are not envelopes and are
+left alone: calling their promoted methods is not safe.
+*/
+func revealCandidate(x any) (assert Interface, ok bool) {
+	switch tv := x.(type) {
+	case Stack:
+		assert, ok = tv, true
+	case Condition:
+		assert, ok = tv, true
+	case *Stack:
+		if ok = tv != nil; ok {
+			assert = tv
+		}
+	case *Condition:
+		if ok = tv != nil; ok {
+			assert = tv
+		}
+	}
+
+	return
+}
+
 func (r *stack) revealDescend(inner Stack, idx int) (err error) {
 	var updated any
 
@@ -2098,7 +2124,7 @@ func (r *stack) revealDescend(inner Stack, idx int) (err error) {
 		case 1:
 			// descend into inner slice #0
 			child, _, _ := inner.index(0)
-			if assert, ok := child.(Interface); ok && !isNilPtr(child) {
+			if assert, ok := revealCandidate(child); ok {
 				if !assert.IsParen() && !inner.IsParen() {
 					err = r.revealSingle(0)
 					updated = child
